@@ -314,7 +314,7 @@ struct Client : simk::Actor {
 
 // ---------------------------------------------------------------- the engine
 struct E1 : Engine {
-	bool fork_per_run(const J &) override { return true; } bool always_forks() override { return true; }   // address-ordered containers in the HTTP watchdog: pristine heap per run
+	bool fork_per_run(const J &) override { return true; } bool always_forks() override { return true; } bool exec_per_run() override { return true; }   // address-ordered containers in the HTTP watchdog: pristine heap per run
 
 	// ---- generation helpers
 	static J gen_segs(simk::Rng &r,size_t len){ J a = J::arr(); unsigned mode = r.below(5);
